@@ -14,6 +14,8 @@ import (
 	"verifharness/sgc"
 
 	"pgregory.net/rapid"
+
+	"github.com/sdcio/yang-parser/compile"
 )
 
 func texts(mods []*sg.Mod) string {
@@ -74,6 +76,10 @@ func compare(out *fw.Outcome, what string, left, right []*sg.Mod, lo, ro sgc.Opt
 type FeatCase struct {
 	Mods []*sg.Mod `json:"mods"`
 	On   []string  `json:"on"`
+	// Via: how the same set is also handed to the compiler through the library's own checkers: 1 FeaturesFromNames,
+	// 2 enable all then disable the rest, 3 disable all then enable the set, 4 the set, a nil checker and an unrelated
+	// disable list (combined with MultiFeatureCheckers: the last definite answer wins)
+	Via int `json:"via,omitempty"`
 }
 
 func allFeatures(mods []*sg.Mod) []string {
@@ -95,7 +101,34 @@ func genFeat(t *rapid.T) FeatCase {
 			c.On = append(c.On, f)
 		}
 	}
+	c.Via = g.Pick(5, "via")
 	return c
+}
+
+// viaChecker expresses the enabled set with the library's feature checkers.
+func viaChecker(c FeatCase) compile.FeaturesChecker {
+	all := allFeatures(c.Mods)
+	isOn := map[string]bool{}
+	for _, f := range c.On {
+		isOn[f] = true
+	}
+	var off []string
+	for _, f := range all {
+		if !isOn[f] {
+			off = append(off, f)
+		}
+	}
+	switch c.Via {
+	case 1:
+		return compile.FeaturesFromNames(true, c.On...)
+	case 2:
+		return compile.MultiFeatureCheckers(compile.FeaturesFromNames(true, all...), compile.FeaturesFromNames(false, off...))
+	case 3:
+		return compile.MultiFeatureCheckers(compile.FeaturesFromNames(false, all...), compile.FeaturesFromNames(true, c.On...))
+	case 4:
+		return compile.MultiFeatureCheckers(compile.FeaturesFromNames(true, c.On...), nil, compile.FeaturesFromNames(false, append([]string{"nosuch:feature"}, off...)...))
+	}
+	return nil
 }
 
 func checkFeatOne(c FeatCase) fw.Outcome {
@@ -146,6 +179,18 @@ func checkFeatOne(c FeatCase) fw.Outcome {
 			sort.Strings(got)
 			if strings.Join(want, ",") != strings.Join(got, ",") {
 				out.Violation = fmt.Sprintf("module %s reports enabled features %v, expected %v (switched on: %v)\n%s", name, got, want, c.On, texts(c.Mods))
+			}
+		}
+		// the same set of enabled features handed over through the library's own checkers gives the same schema
+		if chk := viaChecker(c); chk != nil && out.Violation == "" {
+			out.Labels = append(out.Labels, fmt.Sprintf("via:%d", c.Via))
+			res2 := sgc.Compile(c.Mods, sgc.Opts{Features: chk})
+			if res2.OK() != res.OK() {
+				out.Violation = fmt.Sprintf("feature set %v given through checkers (form %d): %s ; given directly: %s\n%s", c.On, c.Via, res2.Describe(), res.Describe(), texts(c.Mods))
+			} else if res.OK() {
+				if a, b := canon.Dump(res.MS, canon.Opts{}), canon.Dump(res2.MS, canon.Opts{}); a != b {
+					out.Violation = fmt.Sprintf("feature set %v given through checkers (form %d) gives another schema than given directly\n%s\n%s", c.On, c.Via, firstDiff(a, b), texts(c.Mods))
+				}
 			}
 		}
 	}
